@@ -140,19 +140,19 @@ ADDED = {
  "C02": " Every third case runs its sessions in concurrent groups on one shared *Circuit (half on a single P); signed arguments are handed over as negative numbers; some sessions have a garbler entropy source that dies part-way (a reported success must still be right); concurrent twin sessions in one process. Some sessions run with the parties' verbose flag set, some with a garbler entropy source that delivers short reads (1, 16 or 255 bytes per call).",
  "C03": " The generator also emits range loops, copies of arrays/structs, array/struct parameters and results, literal stores; every fifth program is compiled for the GMW target; some cases compile 2-3 programs concurrently. Selects of two distinct literals (if c {x=L1} else {x=L2}); GMW-target programs carry no division or modulo. Literals include powers of two and 32-bit literals with the top bit set next to wider operands. Every third loop is followed by a counting loop whose init clause assigns an outer variable (half of them with zero iterations).",
  "C04": " Also: a scripted deviating peer asking for other OT ranges, and sessions whose entropy source dies after a PRNG number of bytes (R from a healthy twin session of the same seed; the transcript is scanned whether or not the session aborted). Streaming sessions rotate through fixed programs, programs around a harness-generated native circuit (called three times, once with a typed constant argument narrower than the circuit's input) and operator-then-AND programs (every operator's result feeds AND gates). A quarter of the sessions of both modes draw their randomness from a source that delivers short reads (1-255 bytes per call).",
- "C05": " Three dense PRNG-parameterised families next to the general generator: alias chains/fans, element/field stores of values narrower/equal/wider than the slot, and unrolled loops with thousands of values of interleaved lifetimes; concurrent twin sessions. A native-circuit family (harness-generated circuit file called three times, once with a narrower typed constant) and selects of two literals in the store family. A library-program family (encoding/hex, crypto/aes: package-level variables) is streamed twice by one Compiler instance, optionally after a Compile on that instance; some streams use a short-reading entropy source.",
+ "C05": " Three dense PRNG-parameterised families next to the general generator: alias chains/fans, element/field stores of values narrower/equal/wider than the slot, and unrolled loops with thousands of values of interleaved lifetimes; concurrent twin sessions. A native-circuit family (harness-generated circuit file called three times, once with a narrower typed constant) and selects of two literals in the store family. A library-program family (encoding/hex, crypto/aes: package-level variables) is streamed twice by one Compiler instance, optionally after a Compile on that instance; some streams use a short-reading entropy source. A fixture of signed comparisons, division and remainder of an int64 with 32-bit literals whose top bit is set.",
  "C06": " Plain Chou-Orlandi keeps the full size list (batches over 1024); every tenth case has entropy sources that die part-way (a reported success must still deliver the chosen labels); concurrent twin transfers in one process. RSA and CO instances also swap roles on one instance; transfers over a transport that breaks at a PRNG receive call (both parties reporting success must still mean the chosen labels); sessions that never terminate are detected positively (two goroutine dumps). Destinations (label slices and packed-bit words, both ends) are recycled buffers that still hold old contents in a third to half of the calls.",
  "C08": " Also: other programs compiled first with new Compiler instances on one shared Params object; failed compilations in the history of a reused instance; the command line tool as OS processes. A wide-constants family: the same > 64-bit constants folded in sibling programs of other result types compiled first in the process, compared with separate processes that compile the program as their first and only one. A user-library family: 3-6 sibling packages found through Params.PkgPath, each with a constant, an initialised variable and interned symbols; fixtures and this family get three times the repetitions. The user libraries also hold a folded operation on a literal wider than a machine word and a type with a pointer-receiver method called twice.",
  "C10": " Protocol runs rotate through 2..5 parties; three hand-made circuits of more than 65536 AND levels (bijective non-linear feedback register) per run. Further sessions on the same mesh with other inputs; a party with a zero-width input; widths up to 100 bits; every 16th case has one AND level larger than the triple pool. Hand-made circuits with levels of 8193/8255 AND gates (9001 and 12345 in thorough) and more than 500000 AND gates in total.",
  "C11": " Every slice ReceiveData returned is kept (not copied) and compared again after all later receives; every eighth case drives each end from a sender and a receiver goroutine at once.",
- "C12": " Plus two-operator sequences on the same constants: a value that differs from the run-time form and from its isolated fold is history dependence (new key family fold-depends-on-history). Failing tuples of the 78 known folding classes are compared with 19144 witnesses pinned from the unchanged tree (known_witnesses/C12.txt); another failing tuple of a known class is reported as a new witness. Constant-identity probes: a folded value next to a constant that is its sign extension from 32 bits, differs by 2^32, or agrees in the low 32 bits; folded form, run-time form and plain arithmetic must agree.",
- "C15": " Plus a strictly causal adaptive tamperer over two batches on one instance: from what already crossed the wire it predicts the next challenge, finds a zero-sum row set by elimination over GF(2) and flips one Delta-selected column in those rows. Batch sizes whose last check chunk is 3 mod 4 long (3, 7, 131, 1027, 2047, 2051). Receive destinations that still hold old labels (extension level and COT/ROT level). A tamperer betting on an all-zero challenge seed while the receiver's entropy source dies at the start of one of its last draws.",
+ "C12": " Plus two-operator sequences on the same constants: a value that differs from the run-time form and from its isolated fold is history dependence (new key family fold-depends-on-history). Failing tuples of the 78 known folding classes are compared with 19144 witnesses pinned from the unchanged tree (known_witnesses/C12.txt); another failing tuple of a known class is reported as a new witness. Constant-identity probes: a folded value next to a constant that is its sign extension from 32 bits, differs by 2^32, or agrees in the low 32 bits; folded form, run-time form and plain arithmetic must agree. Probes of folded int64 division by powers of two and their neighbours with negative dividends.",
+ "C15": " Plus a strictly causal adaptive tamperer over two batches on one instance: from what already crossed the wire it predicts the next challenge, finds a zero-sum row set by elimination over GF(2) and flips one Delta-selected column in those rows. Batch sizes whose last check chunk is 3 mod 4 long (3, 7, 131, 1027, 2047, 2051). Receive destinations that still hold old labels (extension level and COT/ROT level). A tamperer betting on an all-zero challenge seed while the receiver's entropy source dies at the start of one of its last draws. 2-4 batches on one sender/receiver pair with small later batches and one flip in a later batch.",
  "C16": " Also single-bit flips (all bits of the short transcripts in thorough), paired and constant-mask corruptions 16 bytes apart, and every bit of the first eight bytes of the first two and last four transport writes of each direction (message framing). Eight configurations (whole-circuit incl. one with 90 result bits, streaming incl. repeated result wires); framing-bit faults at flush-unit starts; faults on the last 64 16-byte units. Three of the eight configurations run with the parties' verbose flag set.",
  "C17": " Odd goroutines refill one key buffer in place; some garblings run on a label source that dies part-way; some garblings are kept by their slices only (handle dropped, never released) while garbage collections are forced. Every second case runs with goroutine-local logs instead of a monitor mutex (no synchronisation between goroutines that could hide a race); every sixth case is a release storm in a non-race child process on all cores (large circuit, release bursts against goroutines that never release).",
  "C18": " A round-3 message damaged in one bit of any field, or answering another round-2 message of the same session id, must yield an error or the correct digest; absurd well-formed uvarint lengths (2^31..2^64-1) are spliced into the framed encodings; interleaved sessions in one process. Own messages and session states re-encoded with a session id that differs in one bit (all 64 positions over the cases) must be refused by the consuming round.",
  "C20": " Word-sized moduli, concurrent Fx/Fxk sessions and concurrent twin VOLE sessions in one process. Fx/Fxk sessions over a receiver transport that breaks at a PRNG receive call.",
  "C07": " Failing tuples of the known Goldschmidt finding are compared with 60 witnesses pinned from the unchanged tree; another failing tuple of the same signature is reported as a new witness. The known subtractor finding is recognised by its exact signature (low max+1 bits right, no sign fill); a known-signature mismatch on sampled operands no longer ends the scan of the tuple's other vectors.",
- "C09": " Failing inputs of exhaustive division templates are compared with 8 pinned witnesses. Division templates at widths 10-34 (above the exhaustive range, among them non-powers of two) with small divisors among the vectors; a known-signature mismatch no longer ends the scan of a template's vectors.",
+ "C09": " Failing inputs of exhaustive division templates are compared with 8 pinned witnesses. Division templates at widths 10-34 (above the exhaustive range, among them non-powers of two) with small divisors among the vectors; a known-signature mismatch no longer ends the scan of a template's vectors. Every fourth division-family case is an exhaustively evaluated unsigned division of 5-8 bits whose failing inputs are pinned.",
  "C14": " Round trips of instantiated unsized signatures (programs compiled with explicit input sizes). Hostile type texts ([]uint0, [][]uint8, [4]uint0, absurd sizes, unknown names ...) are spliced into the type field of native files with the length kept consistent; a third of the mutation corpus has typed compound signatures.",
  "C19": " In half of the meshes every party sends on all its connections the moment its own Connect returns; every fourth mesh is formed through a relay that opens the onward leg of a connection after that of the same dialer's next connection (connections accepted out of dial order).",
  "C13": " String results contain NUL (trailing, leading, all-zero), control and high bytes.",
